@@ -31,7 +31,7 @@ func checkC11(c *Ctx) {
 	c.Rule("C11.R1", "model evaluation of NewTree/Insert/Delete over three histories (fill, scattered drain to empty, refill; interleaved deletes of absent objects and duplicates; 36 boxes to height three) and several branching parameters, the comparisons of the insertion heuristics resolved once by the geometry and several times by arbitrary consistent orders: after every operation all leaves are at one depth and Depth() equals it, no node lacks a child it points to, and no call panics")
 	c.Rule("C11.R2", "model evaluation, same runs: every node reached through an entry is parent-linked to the node holding that entry")
 	c.Rule("C11.R3", "model evaluation, same runs: every inner entry's box is exactly the envelope of the boxes below it and every leaf entry's box is its object's box")
-	c.Rule("C11.R4", "model evaluation, same runs: Size() and the multiset of objects found in the leaves equal the history's; Delete of a stored object returns true and of an absent one false, leaving the tree unchanged")
+	c.Rule("C11.R4", "model evaluation, same runs (the heuristics' comparisons resolved by the geometry, by arbitrary orders and by tie-prone ones): Size() and the multiset of objects found in the leaves equal the history's; Delete of a stored object returns true and of an absent one false, leaving the tree unchanged")
 	c.Rule("C11.R5", "model evaluation, same runs: no node holds more than MaxChildren entries")
 	c.Rule("C11.R6", "every package-level relation over two boxes (found by signature) is closed intersection, containment or the lattice join, and the point relation closed containment, in all weak orderings of the coordinates; model evaluation: SearchIntersect returns exactly the stored objects (with multiplicity) whose boxes share a point with the query, for disjoint, touching, overlapping, degenerate and all-covering queries after every third operation")
 	p := c.P.Pkg("index/rtree")
